@@ -62,6 +62,16 @@ def run(ctx):
     if r["violated"] != "CaretOK":
         raise vlib.ToolError("CaretOK is not violated under the CaretBoundary deviation: the invariant is vacuous")
 
+    # (1b) the same arithmetic for *every* display limit >= 7, line length and column (Apalache, linear integer arithmetic)
+    if not ctx.apalache("ExcerptAll", "Init", "Inv", 0, timeout=900):
+        raise vlib.ToolError("ExcerptAll: CaretOK / LenOK / Shown fail for some (l, n, c): model error")
+    import re as _re
+    bad = open(os.path.join(ctx.specdir, "ExcerptAll.tla")).read().replace("FirstRegime == Pos0 < l - 3", "FirstRegime == Pos0 <= l - 3").replace(
+        "MODULE ExcerptAll ", "MODULE ExcerptAllDev ")
+    open(os.path.join(ctx.specdir, "ExcerptAllDev.tla"), "w").write(bad)
+    if ctx.apalache("ExcerptAllDev", "Init", "Inv", 0, timeout=900):
+        raise vlib.ToolError("ExcerptAll holds under the CaretBoundary deviation as well: vacuous")
+
     # (2) at the real display limit: emit and replay through reporting.Reporter
     sets = ["window", "trunc" if thorough else "boundary"]
     cases = execs = shown = trunc = 0
